@@ -728,21 +728,22 @@ class ItemGrader(AbstractGrader):
         # are always inferring answers
         if expect is not None and (self.inferring_answers or not self.config['answers']):
             inferred = self.infer_from_expect(expect)
+            output = json.dumps(inferred)  # How to avoid unicode 'u' showing up!
+
+            # Validate the answers, including post-schema validation, before
+            # storing anything, so that a failure leaves the grader untouched
+            answers = self.schema_answers(inferred)
+            answers = self.post_schema_ans_val(answers)
 
             # Create the debug log...
             self.create_debuglog(student_input)
             # ... so that we can add the inferred answers to it before
             # calling AbstractGrader.__call__
-            output = json.dumps(inferred)  # How to avoid unicode 'u' showing up!
             self.log("Expect value inferred to be {}".format(output))
 
-            # Validate the answers
-            self.config['answers'] = self.schema_answers(inferred)
             # Note that this answer is now stored for future calls, but
             # will be overridden if a new expect value is provided.
-
-            # Perform post-schema answer validation
-            self.config['answers'] = self.post_schema_ans_val(self.config['answers'])
+            self.config['answers'] = answers
 
             # Mark that we are using inferred answers
             self.inferring_answers = True
